@@ -187,7 +187,7 @@ def run(out):
     base = dict(MaxDepth=3, Fillers={" ", "/* {;:} */", "NL", "C2", "C4", "CRLF"}, Loose=True, SemiInParens=False, NoSemi=False)
     cin4 = ('css-4', dict(constants=dict(base, MaxSeg=4, SelIdx={1, 2}, ValIdx={1, 2, 4}, NameIdx={1}, Fillers={" ", "C2", "CRLF"})))
     cin = [('css-exhaustive', dict(constants=dict(base, MaxSeg=3, SelIdx={1, 2, 3, 5}, ValIdx={1, 2, 3, 4}, NameIdx={1, 2}))),
-           ('css-all-shapes', dict(constants=dict(base, MaxSeg=2 if quick else 3, SelIdx=set(range(1, 12)), ValIdx=set(range(1, 15)), NameIdx={1, 2, 3, 4, 5}))),
+           ('css-all-shapes', dict(constants=dict(base, MaxSeg=2, SelIdx=set(range(1, 12)), ValIdx=set(range(1, 15)), NameIdx={1, 2, 3, 4, 5}))),
            ('css-nesting', dict(constants=dict(base, MaxSeg=5 if quick else 6, SelIdx={1, 2}, ValIdx={4}, NameIdx={1}, Fillers={" "}, Loose=False))),
            ('css-deep-nesting', dict(constants=dict(base, MaxSeg=8 if quick else 9, SelIdx={1}, ValIdx={1}, NameIdx={1}, Fillers=set(), Loose=False, NoSemi=True))),
            ('css-no-semicolon', dict(constants=dict(base, MaxSeg=4 if quick else 5, SelIdx={1, 2}, ValIdx={1, 4}, NameIdx={1}, Fillers={" "}, Loose=False, NoSemi=True))),
@@ -197,6 +197,8 @@ def run(out):
     nontrivial = 0
     if not quick:
         cin.insert(1, cin4)
+        # three segments of every selector and value shape: with all five names this is 3.1 million stylesheets (40 GB of vectors), two names give 200 000
+        cin.insert(3, ('css-all-shapes-3', dict(constants=dict(base, MaxSeg=3, SelIdx=set(range(1, 12)), ValIdx=set(range(1, 15)), NameIdx={1, 3}, Fillers={" ", "/* {;:} */"}))))
     for module, cfg, insts, fn in (('HtmlDoc', 'HtmlActions', hin, _html_chunk), ('CssDoc', 'CssActions', cin, _css_chunk)):
         for name, kw in insts:
             r = common.run_tlc(module, cfg=cfg, timeout=3000, heap='16g', **kw)
